@@ -445,8 +445,14 @@ def evaluate_payload_template(input, context, template):
                     "States.ArrayUnique failed, arg[0] is not an array."
                 )
 
-            # Use set to get unique values from input then use list to convert back
-            return list(set(input_array))
+            # Keep the first occurrence of each value, in order. Don't use a set
+            # as that loses the order, can't hold JSON objects or arrays and
+            # treats true and 1 as the same value.
+            unique = []
+            for item in input_array:
+                if not any(type(item) == type(u) and item == u for u in unique):
+                    unique.append(item)
+            return unique
 
         def asl_intrinsic_Base64Encode(args):
             if len(args) != 1:
